@@ -14,6 +14,7 @@ import BumpVerif.Gen.FnRewind
 import BumpVerif.Gen.FnVec
 import BumpVerif.Gen.FnVecDrain
 import BumpVerif.Gen.FnVecIntoIter
+import BumpVerif.Gen.FnVecFilter
 import BumpVerif.Model.Vec
 /-!
 Model-level witness search, run by `./check` when one of the equivalence theorems of `Props/GenFn*.lean` no longer
@@ -225,6 +226,24 @@ def main : IO Unit := do
     let m := V.intoIterOp c v k 0 false w0
     if m.1.bad.isEmpty then some (vtag c v ++ s!" next-calls={k}", iiGen c v k,
       s!"evs={repr m.1.evs} drops={m.1.dropCalls} res={match m.2 with | some xs => "some " ++ toString (repr xs) | none => "none"}") else none)) out
+  -- drain_filter(pred) dropped at once (= retain with the negated predicate), and after one call of next; model unflagged
+  let cb1s : List (String × (Nat → V.Elem → Option Bool)) := [("val>15", fun _ e => some (decide (e.val > 15))), ("all", fun _ _ => some true), ("none", fun _ _ => some false),
+    ("alternate", fun k _ => some (k % 2 == 0)), ("panic@1", fun k e => if k == 1 then none else some (decide (e.val > 15))), ("panic@0", fun k _ => if k == 0 then none else some true)]
+  let dfGen := fun (c : V.Cfg) (v : V.VS) (cb : Nat → V.Elem → Option Bool) =>
+    match Gen.Fn.vec_drain_filter c cb (v, w0) with
+    | (s0, .ok d) =>
+      (match Gen.Fn.df_drop c cb d.idx d.del d.oldLen d.calls d.panicFlag s0 with
+        | (s1, .ok (.ok _, _)) => s!"{repr s1.1} evs={repr s1.2.evs} drops={s1.2.dropCalls} returned"
+        | (s1, .ok (.error _, _)) => s!"{repr s1.1} evs={repr s1.2.evs} drops={s1.2.dropCalls} unwound"
+        | _ => "bad")
+    | _ => "bad"
+  out := add (firstDiff "DrainFilter::drop" ((vc.flatMap fun (c, v) => cb1s.map fun cb => (c, v, cb)).filterMap fun (c, v, (cbn, cb)) =>
+    let m := V.dfDrop c cb { v with len := 0 } ⟨0, 0, v.len, 0, false⟩ w0
+    if m.2.1.bad.isEmpty then some (vtag c v ++ s!" pred={cbn}", dfGen c v cb,
+      s!"{repr m.1} evs={repr m.2.1.evs} drops={m.2.1.dropCalls} {if m.2.2 then "returned" else "unwound"}") else none)) out
+  out := add (firstDiff "Vec::retain" ((vc.flatMap fun (c, v) => cb1s.map fun cb => (c, v, cb)).filterMap fun (c, v, (cbn, cb)) =>
+    let m := V.retain c v cb w0
+    if m.2.1.bad.isEmpty then some (vtag c v ++ s!" keep={cbn}", showM (RsM.toModel (Gen.Fn.vec_retain c cb (v, w0))), showM m) else none)) out
   out := add (firstDiff "Vec::reserve" (vci.map fun (c, v, i) =>
     (vtag c v ++ s!" additional={i}", showM (RsM.toModel (Gen.Fn.vec_reserve c i (v, w0))),
       showM (match V.rawReserve c v v.len i with | some v' => (v', w0, some ()) | none => (v, w0, none))))) out
